@@ -8,12 +8,16 @@ namespace Lex
 /-- characters consumed so far + characters left = length of the line -/
 def LS.total (s : LS) : Nat := s.pos + s.src.length
 
+/-- a `Number` token holds at least one digit and fits a `usize` (what `get_numeric` guarantees since the repair of D2) -/
+def NumOK (t : Token) : Prop := t.kind = .number → t.value ≠ [] ∧ ParseWord.digitsToNat t.value < 2 ^ 64
+
 structure Good (s : LS) (t : Token) (s' : LS) : Prop where
   start_eq : t.start = s.pos
   stop_eq : t.stop = s'.pos
   total_eq : s'.total = s.total
   progress : s'.src.length < s.src.length
   not_eol : t.kind ≠ .eol
+  num_ok : NumOK t
 
 /-- the error's span starts at or after the lexer position and ends at most one past the end of the line -/
 def ErrIn (s : LS) (e : LErr) : Prop := s.pos ≤ e.start ∧ e.start ≤ e.stop ∧ e.stop ≤ s.total + 1
@@ -69,10 +73,10 @@ theorem trimWs_spec (s : LS) :
 /-! ### the recognisers -/
 
 theorem emit1_spec (k : TK) (v : Text) (s s0 : LS) (h : s.src ≠ []) (hk : k ≠ .eol)
-    (hp : s.pos = s0.pos) (hs : s.src = s0.src) : StepSpec s0 (emit1 k v s0.pos s) := by
+    (hp : s.pos = s0.pos) (hs : s.src = s0.src) (hn : k ≠ .number := by simp) : StepSpec s0 (emit1 k v s0.pos s) := by
   obtain ⟨s', he, hpos, hsrc, htot, hlen⟩ := advance_ok s h
   simp only [emit1, he, bind, Outcome.bind, pure, StepSpec]
-  refine ⟨rfl, rfl, ?_, ?_, hk⟩
+  refine ⟨rfl, rfl, ?_, ?_, hk, fun h => absurd h hn⟩
   · simp only [LS.total] at htot ⊢; rw [htot, hp, hs]
   · rw [← hs]; omega
 
@@ -94,7 +98,7 @@ theorem getBracket_spec (s : LS) (h : s.src ≠ []) : StepSpec s (getBracket s) 
         simp only [LS.next] at hn
         subst hn
         simp only [LS.advance, emit1, bind, Outcome.bind, pure, StepSpec]
-        exact ⟨rfl, rfl, by simp only [LS.total, List.length_cons]; omega, by simp only [List.length_cons]; omega, by simp⟩
+        exact ⟨rfl, rfl, by simp only [LS.total, List.length_cons]; omega, by simp only [List.length_cons]; omega, by simp, by simp [NumOK]⟩
       | [_], _, hn => simp [LS.next] at hn
     · exact emit1_spec _ _ _ s h (by simp) rfl rfl
   split
@@ -116,10 +120,10 @@ theorem getBracket_spec (s : LS) (h : s.src ≠ []) : StepSpec s (getBracket s) 
   · trivial
 
 theorem chop_spec (s s0 : LS) (n : Nat) (k : TK) (hn : 0 < n) (hle : n ≤ s.src.length) (hk : k ≠ .eol)
-    (hp : s.pos = s0.pos) (hs : s.src = s0.src) :
+    (hp : s.pos = s0.pos) (hs : s.src = s0.src) (hnum : k ≠ .number := by first | simp | (split <;> simp)) :
     StepSpec s0 (chopTok k n s0.pos s) := by
   simp only [chopTok, LS.chop, hle, if_true, bind, Outcome.bind, pure, StepSpec]
-  refine ⟨rfl, rfl, ?_, ?_, hk⟩
+  refine ⟨rfl, rfl, ?_, ?_, hk, fun h => absurd h hnum⟩
   · simp only [LS.total, List.length_drop]; rw [hp, ← hs]; omega
   · simp only [List.length_drop]; rw [← hs]; omega
 
@@ -144,7 +148,7 @@ theorem getPrimative_spec (s : LS) (h : s.src ≠ []) : StepSpec s (getPrimative
 theorem isDigit_ne_zero (c : Nat) (h : isDigit c = true) : c ≠ 0 := by
   intro h'; subst h'; simp [isDigit] at h
 
-theorem getNumeric_spec (s : LS) : StepSpec s (.ok (getNumeric s)) := by
+theorem getNumeric_spec (s : LS) : StepSpec s (getNumeric s) := by
   unfold getNumeric
   split
   · trivial
@@ -153,11 +157,25 @@ theorem getNumeric_spec (s : LS) : StepSpec s (.ok (getNumeric s)) := by
     have hne := src_ne_of_cur s (isDigit_ne_zero _ hd)
     have hsp := chopWhile_spec s isDigit
     have hpr := chopWhile_progress s isDigit hne hd
-    exact ⟨rfl, rfl, hsp.1, hpr, by simp⟩
+    split
+    · rename_i hlt
+      refine ⟨rfl, rfl, hsp.1, hpr, by simp, fun _ => ⟨?_, hlt⟩⟩
+      intro h0
+      have h0' : (s.chopWhile isDigit).1 = [] := h0
+      have h4 := hsp.2.2.2
+      rw [h0'] at h4
+      have : (s.chopWhile isDigit).2.total = s.total := hsp.1
+      simp only [LS.total, List.length_nil, Nat.add_zero] at h4 this
+      omega
+    · -- NumberTooBig underlines the digits
+      have : (s.chopWhile isDigit).2.pos ≤ (s.chopWhile isDigit).2.total := by simp only [LS.total]; omega
+      simp only [StepSpec, ErrIn]
+      have := hsp.1; have := hsp.2.2.1
+      omega
 
-theorem whileTok_spec (s : LS) (p : Nat → Bool) (k : TK) (hk : k ≠ .eol) (h : s.src ≠ []) (hp : p s.cur = true) :
-    StepSpec s (whileTok k p s) :=
-  ⟨rfl, rfl, (chopWhile_spec s p).1, chopWhile_progress s p h hp, hk⟩
+theorem whileTok_spec (s : LS) (p : Nat → Bool) (k : TK) (hk : k ≠ .eol) (h : s.src ≠ []) (hp : p s.cur = true)
+    (hn : k ≠ .number := by simp) : StepSpec s (whileTok k p s) :=
+  ⟨rfl, rfl, (chopWhile_spec s p).1, chopWhile_progress s p h hp, hk, fun h => absurd h hn⟩
 
 theorem getSpecialChar_spec (s : LS) (h : s.src ≠ []) : StepSpec s (getSpecialChar s) := by
   have h1 := len_pos_of_ne _ h
@@ -202,7 +220,7 @@ theorem getSpecialChar_spec (s : LS) (h : s.src ≠ []) : StepSpec s (getSpecial
     · rw [if_neg hf]; exact chop_spec _ s 1 _ (by omega) h1 (by simp) rfl rfl
   rw [if_neg c10]
   by_cases c11 : s.cur = 62
-  · rw [if_pos c11]; exact chop_spec _ s 1 _ (by omega) h1 (by split <;> simp) rfl rfl
+  · rw [if_pos c11]; exact chop_spec _ s 1 _ (by omega) h1 (by split <;> simp) rfl rfl (by split <;> simp)
   rw [if_neg c11]
   by_cases c12 : s.cur = 124
   · rw [if_pos c12]; exact chop_spec s s 1 _ (by omega) h1 (by simp) rfl rfl
@@ -284,7 +302,7 @@ theorem featFinish_spec (s s4 : LS) (m buf : Text) (htot : s4.total = s.total) (
     · simp only [StepSpec, ErrIn]; omega
     · split
       · simp only [StepSpec, ErrIn, LS.total]; omega
-      · exact ⟨rfl, rfl, htot, hlen, by simp⟩
+      · exact ⟨rfl, rfl, htot, hlen, by simp, by simp [NumOK]⟩
 
 theorem getFeature_spec (s : LS) (h : s.src ≠ []) : StepSpec s (getFeature s) := by
   unfold getFeature
@@ -321,7 +339,7 @@ theorem getComment_spec (s : LS) (h : s.src ≠ []) : StepSpec s (getComment s) 
       obtain ⟨s2, he2, hpos2, _, htot2, hlen2⟩ := advance_ok s1 (src_ne_of_cur s1 (by omega))
       have hw := chopWhile_spec s2 (fun _ => true)
       simp only [he2, pure]
-      exact ⟨rfl, rfl, by omega, by omega, by simp⟩
+      exact ⟨rfl, rfl, by omega, by omega, by simp, by simp [NumOK]⟩
 
 theorem isAlpha_ne_zero' (c : Nat) (h : isAlpha c = true) : c ≠ 0 := by
   intro h'; subst h'; simp [isAlpha, isUpper, isLower] at h
@@ -354,10 +372,20 @@ theorem getString_spec (s : LS) (h : s.src ≠ []) : StepSpec s (getString s) :=
     split
     · rename_i num s5 hnum
       rw [hnum] at hn
+      have hn : Good s3.trimWs num s5 := hn
       simp only [pure, StepSpec]
-      exact ⟨rfl, rfl, by have := hn.total_eq; omega, by have := hn.progress; omega, by simp⟩
+      exact ⟨rfl, rfl, by have := hn.total_eq; omega, by have := hn.progress; omega, by simp, by simp [NumOK]⟩
     · have : s3.trimWs.pos ≤ s3.trimWs.total := by simp only [LS.total]; omega
       simp only [StepSpec, ErrIn]; omega
+    · -- NumberTooBig from `get_numeric`: inside the line, after the start of this token
+      rename_i e hnum
+      rw [hnum] at hn
+      have hn : ErrIn s3.trimWs e := hn
+      simp only [StepSpec, ErrIn] at hn ⊢
+      have := ht4.1; have := ht4.2.2; have := ht.1; have := ht.2.2; have := hw.1; have := hw.2.2.1
+      omega
+    · rename_i hnum; rw [hnum] at hn; exact hn
+    · rename_i hnum; rw [hnum] at hn; exact hn
   · have : (s.chopWhile isAlpha).2.trimWs.pos ≤ (s.chopWhile isAlpha).2.trimWs.total := by simp only [LS.total]; omega
     simp only [StepSpec, ErrIn]; omega
 
@@ -430,7 +458,7 @@ theorem getIpa_spec (s : LS) (h : s.src ≠ []) : StepSpec s (getIpa s) := by
   · obtain ⟨s1, he, hpos, _, htot, hlen⟩ := advance_ok s h
     obtain ⟨b', s', hr, h1, h2, h3⟩ := ipaLoop_spec (s1.src.length + 1) s1 (ipaFirst s.cur) (Nat.lt_succ_self _)
     simp only [he, bind, Outcome.bind, hr, pure]
-    exact ⟨rfl, rfl, by omega, by omega, by simp⟩
+    exact ⟨rfl, rfl, by omega, by omega, by simp, by simp [NumOK]⟩
   · trivial
 
 /-! ### `get_next_token` and `get_line` -/
@@ -447,7 +475,7 @@ def TokSpec (s0 : LS) : LRes (Token × LS) → Prop
   | .ok (t, s') =>
     s0.pos ≤ t.start ∧ t.start < t.stop ∧ s'.total = s0.total ∧
     (t.kind = .eol → t.start = s0.total ∧ t.stop = s0.total + 1) ∧
-    (t.kind ≠ .eol → t.stop = s'.pos ∧ s'.src.length < s0.src.length)
+    (t.kind ≠ .eol → t.stop = s'.pos ∧ s'.src.length < s0.src.length) ∧ NumOK t
   | .err e => s0.pos ≤ e.start ∧ e.start ≤ e.stop ∧ e.stop ≤ s0.total + 1
   | .panic _ => False
   | .outOfFuel _ => False
@@ -461,12 +489,12 @@ theorem getNextToken_spec (s0 : LS) : TokSpec s0 (getNextToken s0) := by
     have hl : s0.trimWs.src.length = 0 := by simpa using he
     have : s0.trimWs.pos = s0.total := by have := ht.1; simp only [LS.total] at this ⊢; omega
     simp only [TokSpec]
-    refine ⟨by omega, by omega, ht.1, fun _ => ⟨this, by omega⟩, fun hk => absurd rfl hk⟩
+    refine ⟨by omega, by omega, ht.1, fun _ => ⟨this, by omega⟩, fun hk => absurd rfl hk, by simp [NumOK]⟩
   · rw [if_neg he]
     have hne : s0.trimWs.src ≠ [] := by simpa using he
     have hspec : StepSpec s0.trimWs
         (orElse (getComment s0.trimWs) fun _ => orElse (getBracket s0.trimWs) fun _ => orElse (getPrimative s0.trimWs) fun _ =>
-          orElse (.ok (getNumeric s0.trimWs)) fun _ => orElse (getFeature s0.trimWs) fun _ => orElse (getSpecialChar s0.trimWs) fun _ =>
+          orElse (getNumeric s0.trimWs) fun _ => orElse (getFeature s0.trimWs) fun _ => orElse (getSpecialChar s0.trimWs) fun _ =>
           orElse (getIpa s0.trimWs) fun _ => orElse (getDiacritic s0.trimWs) fun _ => getString s0.trimWs) := by
       refine orElse_spec _ _ _ (getComment_spec _ hne) ?_
       refine orElse_spec _ _ _ (getBracket_spec _ hne) ?_
@@ -479,7 +507,7 @@ theorem getNextToken_spec (s0 : LS) : TokSpec s0 (getNextToken s0) := by
       exact getString_spec _ hne
     revert hspec
     generalize (orElse (getComment s0.trimWs) fun _ => orElse (getBracket s0.trimWs) fun _ => orElse (getPrimative s0.trimWs) fun _ =>
-          orElse (.ok (getNumeric s0.trimWs)) fun _ => orElse (getFeature s0.trimWs) fun _ => orElse (getSpecialChar s0.trimWs) fun _ =>
+          orElse (getNumeric s0.trimWs) fun _ => orElse (getFeature s0.trimWs) fun _ => orElse (getSpecialChar s0.trimWs) fun _ =>
           orElse (getIpa s0.trimWs) fun _ => orElse (getDiacritic s0.trimWs) fun _ => getString s0.trimWs) = r
     intro hspec
     have hpt : s0.trimWs.pos ≤ s0.trimWs.total := by simp only [LS.total]; omega
@@ -489,7 +517,7 @@ theorem getNextToken_spec (s0 : LS) : TokSpec s0 (getNextToken s0) := by
       have hg : Good s0.trimWs t s' := hg
       have h1 := hg.start_eq; have h2 := hg.stop_eq; have h3 := hg.total_eq; have h4 := hg.progress
       have : s'.pos + s'.src.length = s0.trimWs.pos + s0.trimWs.src.length := by simpa only [LS.total] using h3
-      refine ⟨by omega, by omega, by omega, fun hk => absurd hk hg.not_eol, fun _ => ⟨h2, by omega⟩⟩
+      refine ⟨by omega, by omega, by omega, fun hk => absurd hk hg.not_eol, fun _ => ⟨h2, by omega⟩, hg.num_ok⟩
     | .ok none, _ =>
       simp only [TokSpec]; omega
     | .err e, hg =>
@@ -504,7 +532,7 @@ def WellSpaced : Nat → Nat → List Token → Prop
 
 def LineSpec (s : LS) (acc : List Token) : LRes (List Token) → Prop
   | .ok res => ∃ new, res = acc ++ new ∧ WellSpaced s.pos s.total new ∧
-      ∃ t, new.getLast? = some t ∧ t.kind = .eol ∧ t.start = s.total ∧ t.stop = s.total + 1
+      (∃ t, new.getLast? = some t ∧ t.kind = .eol ∧ t.start = s.total ∧ t.stop = s.total + 1) ∧ ∀ t ∈ new, NumOK t
   | .err e => s.pos ≤ e.start ∧ e.start ≤ e.stop ∧ e.stop ≤ s.total + 1
   | .panic _ => False
   | .outOfFuel _ => False
@@ -521,23 +549,27 @@ theorem lineLoop_spec : ∀ (fuel : Nat) (s : LS) (acc : List Token), s.src.leng
     match hg : getNextToken s, hs with
     | .ok (t, s'), hs =>
       simp only [TokSpec] at hs
-      obtain ⟨h1, h2, h3, h4, h5⟩ := hs
+      obtain ⟨h1, h2, h3, h4, h5, h6⟩ := hs
       simp only
       by_cases hk : t.kind = .eol
       · rw [if_pos hk]
         obtain ⟨e1, e2⟩ := h4 hk
-        exact ⟨[t], rfl, ⟨h1, h2, by omega, trivial⟩, t, rfl, hk, e1, e2⟩
+        exact ⟨[t], rfl, ⟨h1, h2, by omega, trivial⟩, ⟨t, rfl, hk, e1, e2⟩, fun t' ht' => by simp at ht'; rw [ht']; exact h6⟩
       · rw [if_neg hk]
         obtain ⟨e1, e2⟩ := h5 hk
         have hrec := ih s' (acc ++ [t]) (by omega)
         have hle : s'.pos ≤ s.total := by rw [← h3]; simp only [LS.total]; omega
         match hr : lineLoop n s' (acc ++ [t]), hrec with
         | .ok res, hrec =>
-          obtain ⟨new, hres, hw, tl, hl1, hl2, hl3, hl4⟩ := hrec
-          refine ⟨t :: new, by rw [hres]; simp, ⟨h1, h2, by omega, by rw [e1, ← h3]; exact hw⟩, tl, ?_, hl2, by omega, by omega⟩
-          cases new with
-          | nil => simp at hl1
-          | cons a b => simpa using hl1
+          obtain ⟨new, hres, hw, ⟨tl, hl1, hl2, hl3, hl4⟩, hnum⟩ := hrec
+          refine ⟨t :: new, by rw [hres]; simp, ⟨h1, h2, by omega, by rw [e1, ← h3]; exact hw⟩, ⟨tl, ?_, hl2, by omega, by omega⟩, ?_⟩
+          · cases new with
+            | nil => simp at hl1
+            | cons a b => simpa using hl1
+          · intro t' ht'
+            rcases List.mem_cons.mp ht' with rfl | hm
+            · exact h6
+            · exact hnum t' hm
         | .err e, hrec =>
           simp only [LineSpec] at hrec ⊢
           omega
